@@ -110,6 +110,7 @@ class Extraction:
         """rels: paths relative to the repo (or absolute synthetic sources). Returns {rel: path_to_json}."""
         jobs = []
         outs = {}
+        cache = self.__dict__.setdefault("_cache", {})
         for rel in rels:
             src = rel if os.path.isabs(rel) else os.path.join(self.repo, rel)
             if not os.path.isfile(src):
@@ -118,6 +119,11 @@ class Extraction:
             out = os.path.join(self.dir, config + "__" + rel.replace("/", "_") + (".main" if main_only else ".all") + ".json")
             outs[rel] = out
             fl = flags_for(rel, config, self.gen_inc, self.repo) + (extra_flags or [])
+            key = (src, config, tuple(fl), main_only)
+            if key in cache:
+                outs[rel] = cache[key]
+                continue
+            cache[key] = out
             jobs.append((src, out, fl, main_only))
         with ThreadPoolExecutor(max_workers=16) as ex:
             for src, out, rc, err in ex.map(self._run, jobs):
